@@ -694,6 +694,15 @@ type Snap struct {
 	AppHash []byte
 }
 
+// Size is the number of bytes the snapshot keeps (its difference to the base).
+func (s *Snap) Size() int {
+	n := len(s.blob)
+	for _, k := range s.tomb {
+		n += len(k)
+	}
+	return n
+}
+
 func DumpDB(db dbm.DB) []KV {
 	it, err := db.Iterator(nil, nil)
 	if err != nil {
